@@ -472,3 +472,8 @@ _run_c05t = run
 def run(rep, programs):  # noqa: F811
     _run_c05t(rep, programs)
     r_rebuild_total(rep, programs["core"])
+
+
+EXPLANATION = EXPLANATION + (
+    ' R-REBUILD-TOTAL: Trees::new writes the entry of every tree in every iteration (also of a tree without a free frame), because the volatile buffer it rebuilds into is arbitrary.'
+)
